@@ -81,7 +81,7 @@ PROPS = {
     "C12": {"count": {"quick": 500, "thorough": 8000},
             "trusted": SOCK_TRUSTED + PARSER_TRUSTED + PROXY_TRUSTED + ["the upstream side is a real QTcpSocket over loopback to a harness-owned QTcpServer; a `turn` runs the event loop until nothing moves, so timing only decides which modelled interleaving is exercised (connected before/after body segments)",
                                         "modelled, not verified: QUrl::toPercentEncoding, QHostAddress::toString, QAbstractSocket buffering of writes made before `connected`"],
-            "rule": "methods x targets (escaped reserved characters, space, CR LF, '?', '#', '%', non-ASCII, query strings) x header sets (duplicates, pre-existing X-Forwarded-For / X-Real-IP) x bodies of 0..40 bytes x segmentations x position of the event-loop turns (body before / after the upstream connection)"},
+            "rule": "methods x targets (escaped reserved characters, space, CR LF, '?', '#', '%', non-ASCII, query strings) x header sets (duplicates, pre-existing X-Forwarded-For / X-Real-IP) x bodies of 0..40 bytes x segmentations x position of the event-loop turns (body before / after the upstream connection) x early answers of the upstream server (35 %: interim 100, final 2xx/5xx, head cut across two writes, data after the head, heads Parser::parseResponseHeaders refuses -> 502, payloads written before the connection exists) placed between the client's segments; completeness of the body is demanded whenever two turns follow the last segment, unless the answer sent so far is a refused head (C12.settled / Proxy.upHeadOk)"},
     "C13": {"count": {"quick": 500, "thorough": 8000},
             "trusted": SOCK_TRUSTED + PARSER_TRUSTED + PROXY_TRUSTED + ["as C12; upstream segmentation is enforced by write+flush followed by a turn on loopback"],
             "rule": "scripted upstream: status 100..599 and out of range, reasons incl. empty, header multisets with repeats and padding, bodies 0..700 bytes (also starting with a blank line), every kind of cut incl. inside the head and at the head/body edge; faults: connection refused, close after k bytes of the head, close after the response, late data after close"},
@@ -131,7 +131,7 @@ LEVEL = {
          "partial: memory errors inside Qt or arising from allocator state cannot be exhibited by the model; they are observed."),
  "C11": ("Partial. Theorems: termination of Parser::split for the non-empty delimiters of every call site, progress of each cut, takeFirst()/parts[i] accesses in range, termination of the copier's block loop, 64-bit safety of the Range arithmetic, totality of the event handlers of the model; observed: arbitrary event/byte/re-entrancy sequences under ASan+UBSan with the full history compared against the model.",
          "partial: memory safety of the compiled code and of Qt is observed, not proved."),
- "C12": ("Theorems over the relay state machine (request line from the method table and the re-encoded routed path plus the client's raw query; header copy with X-Forwarded-For / X-Real-IP; buffer-then-flush of body bytes around the `connected` event): the upstream stream is one head the strict reader accepts followed by exactly the client's body bytes, wherever `connected` falls; tie: real ProxyHandler with a loopback upstream.",
+ "C12": ("Theorems over the relay state machine (request line from the method table and the re-encoded routed path plus the client's raw query; header copy with X-Forwarded-For / X-Real-IP; buffer-then-flush of body bytes around the `connected` event): the upstream stream is one head the strict reader accepts followed by exactly the client's body bytes, wherever `connected` falls and whatever the upstream server answers in the meantime (event lists new (feed | turn | up)*: a relayed answer leaves the request side of the client's socket untouched, a refused one closes it and freezes a prefix); tie: real ProxyHandler with a loopback upstream.",
          "loopback timing chooses the interleaving; the percent-encoding and header-map sub-models are validated by the same runs."),
  "C13": ("Theorems: a parsable upstream head is relayed with the same code, reason, per-name value multiset and body for every segmentation; refused / truncated / unparsable upstream gives exactly one 502; tie: scripted upstream servers over loopback.",
          "as C12."),
